@@ -1988,8 +1988,8 @@ def _get_init_value(init, shape, what="signal"):
                     category=SyntaxWarning,
                     stacklevel=2)
 
-        if isinstance(orig_shape, range) and orig_init is not None and orig_init not in orig_shape:
-            if orig_init == orig_shape.stop:
+        if isinstance(orig_shape, range) and orig_init is not None and init.value not in orig_shape:
+            if init.value == orig_shape.stop:
                 raise SyntaxError(
                     f"Initial value {orig_init!r} equals the non-inclusive end of the {what} "
                     f"shape {orig_shape!r}; this is likely an off-by-one error")
